@@ -250,6 +250,17 @@ func DB(t *rapid.T, o CmdOpts, classes []int) ([]database.Command, DBClass) {
 			c.Tags = strings.Fields(rep)
 		}
 	}
+	if o.Long && len(cmds) >= 2 && rapid.IntRange(0, 9).Draw(t, "long-twins") == 0 {
+		// two entries carry different words of 65-200 letters that agree on a long prefix
+		// (digests, generated identifiers): each is a word of its own
+		n := rapid.SampledFrom([]int{64, 65, 70, 100, 128, 200}).Draw(t, "twin-prefix")
+		stem := strings.Repeat(rapid.SampledFrom([]string{"a", "x7", "deadbeef"}).Draw(t, "twin-stem"), n)[:n]
+		i, j := rapid.IntRange(0, len(cmds)-1).Draw(t, "twin-i"), rapid.IntRange(0, len(cmds)-1).Draw(t, "twin-j")
+		if i != j {
+			cmds[i].Description += " " + stem + "1"
+			cmds[j].Keywords = append(append([]string{}, cmds[j].Keywords...), stem+"2")
+		}
+	}
 	return cmds, cls
 }
 
